@@ -173,6 +173,92 @@ Proof.
   intros x Hx; apply H; right; exact Hx.
 Qed.
 
+
+(* ------------------------------------------------------------------ duplicate-free lists of call ids *)
+Lemma nodup_app' {A} (a b : list A) : NoDup a -> NoDup b -> (forall x, In x a -> ~ In x b) -> NoDup (a ++ b).
+Proof.
+  induction 1 as [|x a Hx Ha IH]; intros Hb Hd; [exact Hb|]. cbn. constructor.
+  - intros Hin. apply in_app_or in Hin as [Hin|Hin]; [contradiction|]. exact (Hd x (or_introl eq_refl) Hin).
+  - apply IH; [exact Hb|]. intros y Hy. apply Hd. right; exact Hy.
+Qed.
+Lemma nodup_app_l {A} (a b : list A) : NoDup (a ++ b) -> NoDup a.
+Proof. induction a as [|x a IH]; intros H; [constructor|]. inversion H; subst. constructor; [intros Hin; apply H2; apply in_or_app; left; exact Hin|apply IH; assumption]. Qed.
+Lemma nodup_map_filter {A B} (f : A -> B) (p : A -> bool) l : NoDup (map f l) -> NoDup (map f (filter p l)).
+Proof.
+  induction l as [|a l IH]; intros H; [constructor|]. cbn in *. inversion H; subst. destruct (p a); [|apply IH; assumption].
+  cbn. constructor; [|apply IH; assumption]. intros Hin. apply H2. apply in_map_iff in Hin as (x & E & Hx). apply filter_In in Hx as [Hx _].
+  apply in_map_iff. exists x. split; assumption.
+Qed.
+Lemma firstn_subset' {A} n : forall (l : list A) x, In x (firstn n l) -> In x l.
+Proof. induction n as [|n IH]; intros l x H; [contradiction|]. destruct l as [|a l]; [contradiction|]. destruct H as [->|H]; [left; reflexivity|right; apply IH; exact H]. Qed.
+Lemma nodup_map_firstn {A B} (f : A -> B) n (l : list A) : NoDup (map f l) -> NoDup (map f (firstn n l)).
+Proof.
+  revert l; induction n as [|n IH]; intros l H; [constructor|]. destruct l as [|a l]; [constructor|]. cbn in *. inversion H; subst.
+  constructor; [|apply IH; assumption]. intros Hin. apply H2. apply in_map_iff in Hin as (x & E & Hx). apply in_map_iff. exists x. split; [exact E|].
+  eapply (firstn_subset' n); exact Hx.
+Qed.
+Lemma nodup_number_ops {A} t (ops : list A) : forall i, NoDup (map fst (number_ops t i ops)).
+Proof.
+  induction ops as [|a ops IH]; intros i; [constructor|]. cbn. constructor; [|apply IH].
+  intros Hin. apply in_map_iff in Hin as ([x o] & E & Hx). cbn in E. subst x. apply number_ops_in in Hx as (_ & L & _). cbn in L. lia.
+Qed.
+(* any per-thread selection of the numbered calls that keeps sub-lists duplicate-free *)
+Lemma nodup_threads {A} (g : list (nat * nat * A) -> list (nat * nat * A)) :
+  (forall tc x, In x (g tc) -> In x tc) -> (forall tc, NoDup (map fst tc) -> NoDup (map fst (g tc))) ->
+  forall (ths : list (list A)) t0, NoDup (map fst (concat (map g (number_threads t0 ths)))).
+Proof.
+  intros G1 G2. induction ths as [|ops ths IH]; intros t0; [constructor|]. cbn [number_threads map concat]. rewrite map_app.
+  apply nodup_app'; [apply G2; apply nodup_number_ops|apply IH|].
+  intros x Hx Hy. apply in_map_iff in Hx as ([x1 o1] & E1 & H1). apply in_map_iff in Hy as ([x2 o2] & E2 & H2). cbn in E1, E2. subst x1 x2.
+  apply G1 in H1. apply number_ops_in in H1 as (F1 & _).
+  apply in_concat in H2 as (l & Hl & H2). apply in_map_iff in Hl as (tc & <- & Htc). apply G1 in H2.
+  apply number_threads_in in Htc as (t & Lt & -> & _). apply number_ops_in in H2 as (F2 & _). cbn in *. lia.
+Qed.
+
+(* names of a duplicate-free family with at most one name each *)
+Lemma nodup_names_flat {A} (f : A -> list bytes) l : NoDup l ->
+  (forall x, f x = [] \/ exists n, f x = [n]) ->
+  (forall x y n, In x l -> In y l -> f x = [n] -> f y = [n] -> x = y) ->
+  nodup_names (flat_map f l) = true.
+Proof.
+  induction 1 as [|a l Ha Hl IH]; intros H1 Hinj; [reflexivity|]. cbn [flat_map].
+  assert (IH' : nodup_names (flat_map f l) = true).
+  { apply IH; [exact H1|]. intros x y n Hx Hy. apply Hinj; right; assumption. }
+  destruct (H1 a) as [E|[n E]]; rewrite E; cbn [app nodup_names]; [exact IH'|]. rewrite IH', andb_true_r.
+  apply negb_true_iff. destruct (existsb (bytes_eqb n) (flat_map f l)) eqn:Ex; [exfalso|reflexivity].
+  apply existsb_exists in Ex as (m & Hm & Em). apply bytes_eqb_eq in Em. subst m.
+  apply in_flat_map in Hm as (y & Hy & Hn). destruct (H1 y) as [Ey|[n' Ey]]; rewrite Ey in Hn; [contradiction|].
+  destruct Hn as [->|[]]. assert (a = y) by (apply (Hinj a y n); [left; reflexivity|right; exact Hy|exact E|exact Ey]). subst y. contradiction.
+Qed.
+Lemma nodup_names_inj {A} (f : A -> list bytes) l : nodup_names (flat_map f l) = true -> NoDup l ->
+  forall x y n, In x l -> In y l -> f x = [n] -> f y = [n] -> x = y.
+Proof.
+  induction l as [|a l IH]; intros H Hn x y n Hx Hy Fx Fy; [contradiction|]. cbn [flat_map] in H. inversion Hn as [|? ? Ha Hl]; subst.
+  assert (Hrest : nodup_names (flat_map f l) = true).
+  { clear -H. induction (f a) as [|b r IHr]; [exact H|]. cbn in H. apply andb_true_iff in H as [_ H]. apply IHr; exact H. }
+  assert (Hhead : forall z, In z l -> f a = [n] -> f z = [n] -> False).
+  { intros z Hz Fa Fz. rewrite Fa in H. cbn in H. apply andb_true_iff in H as [H _]. apply negb_true_iff in H.
+    assert (existsb (bytes_eqb n) (flat_map f l) = true); [|congruence].
+    apply existsb_exists. exists n. split; [apply in_flat_map; exists z; split; [exact Hz|rewrite Fz; left; reflexivity]|apply bytes_eqb_refl]. }
+  destruct Hx as [<-|Hx], Hy as [<-|Hy]; [reflexivity|exfalso; eapply Hhead; eauto|exfalso; eapply Hhead; eauto|eapply IH; eauto].
+Qed.
+
+Lemma find_unique {A} (p : A -> bool) l a : In a l -> p a = true -> (forall b, In b l -> p b = true -> b = a) -> find p l = Some a.
+Proof.
+  induction l as [|x l IH]; intros Hin Pa Hu; [contradiction|]. cbn. destruct (p x) eqn:Px.
+  - f_equal. apply Hu; [left; reflexivity|exact Px].
+  - destruct Hin as [->|Hin]; [congruence|]. apply IH; [exact Hin|exact Pa|]. intros b Hb. apply Hu. right; exact Hb.
+Qed.
+Lemma filter_split {A} (p : A -> bool) l : forall l1 x l2, filter p l = l1 ++ x :: l2 ->
+  exists p1 p2, l = p1 ++ x :: p2 /\ forall y, In y l2 -> In y p2.
+Proof.
+  induction l as [|a l IH]; intros l1 x l2 E; [destruct l1; discriminate|]. cbn in E. destruct (p a) eqn:Pa.
+  - destruct l1 as [|b l1]; cbn in E; injection E as -> E.
+    + exists [], l. split; [reflexivity|]. intros y Hy. assert (In y (filter p l)) by (rewrite E; exact Hy). apply filter_In in H as [H _]. exact H.
+    + destruct (IH _ _ _ E) as (p1 & p2 & -> & H). exists (b :: p1), p2. split; [reflexivity|exact H].
+  - destruct (IH _ _ _ E) as (p1 & p2 & -> & H). exists (a :: p1), p2. split; [reflexivity|exact H].
+Qed.
+
 Lemma flat_map_map' {A B C} (g : A -> B) (f : B -> list C) l : flat_map f (map g l) = flat_map (fun x => f (g x)) l.
 Proof. induction l; cbn; [reflexivity|]. rewrite IHl. reflexivity. Qed.
 Lemma flat_map_mapped {A B C} (f : A -> list C) (hh : A -> list B) (g : B -> C) l : (forall x, f x = map g (hh x)) -> flat_map f l = map g (flat_map hh l).
@@ -470,18 +556,129 @@ Proof.
       unfold cop. rewrite <- Eo. cbn. left; reflexivity.
 Qed.
 
-(* ---- events: here only for runs whose included calls add no event (see the partial theorem below) *)
-Hypothesis Hnoev : forall x, In x P -> match opa x with Event _ _ _ => False | _ => True end.
+(* ---- events.  Hypothesis: the event names of the scripts are pairwise distinct (the generator numbers them; [parse_rcase]
+   rejects a case in which they are not) *)
+Hypothesis Hnames : forall x y n ts a ts' a', valid x -> valid y -> opa x = Event n ts a -> opa y = Event n ts' a' -> x = y.
+
+Definition sel_ev (o : op aval) : option (bytes * option Z * option (attrs aval)) :=
+  match o with Event n ts a => Some (n, ts, a) | _ => None end.
+Definition isEv (x : cid) : bool := match sel_ev (opa x) with Some _ => true | None => false end.
+Definition evP : list cid := filter isEv P.
+Definition payload (x : cid) : bytes * option Z * option (attrs aval) :=
+  match sel_ev (opa x) with Some pl => pl | None => ([], None, None) end.
+Definition exported (x : cid) : event := event_of (map_ev conv (payload x)).
+
+Lemma sel_ev_some o n ts a : sel_ev o = Some (n, ts, a) -> o = Event n ts a.
+Proof. destruct o; try discriminate. cbn. intros [= -> -> ->]. reflexivity. Qed.
+Lemma ev_calls_selc l : ev_calls l = selc sel_ev l.
+Proof. unfold ev_calls, selc. apply flat_map_ext. intros [x o]. destruct o; reflexivity. Qed.
+
+Lemma nodup_P : NoDup P.
+Proof. rewrite Hsplit in Hnd. exact (nodup_app_l _ _ Hnd). Qed.
+Lemma nodup_evP : NoDup evP.
+Proof. unfold evP. apply NoDup_filter. exact nodup_P. Qed.
+Lemma evP_in x : In x evP <-> In x P /\ exists pl, sel_ev (opa x) = Some pl.
+Proof.
+  unfold evP, isEv. rewrite filter_In. split; intros [H1 H2]; split; try exact H1.
+  - destruct (sel_ev (opa x)) as [pl|]; [exists pl; reflexivity|discriminate].
+  - destruct H2 as [pl ->]. reflexivity.
+Qed.
+Lemma valid_P x : In x P -> valid x.
+Proof. intros H. apply Hval. apply in_P_ids. exact H. Qed.
+
+Lemma dx_events : d_events dx = map exported evP.
+Proof.
+  assert (G : forall l, flat_map (fun x => match cop x with Event n ts a => [(n, ts, a)] | _ => [] end) l =
+                        map (fun x => map_ev conv (payload x)) (filter isEv l)).
+  { induction l as [|x l IH]; [reflexivity|]. cbn [flat_map filter]. rewrite IH. unfold isEv at 2. unfold cop.
+    destruct (opa x) eqn:Ox; cbn [map_op sel_ev app]; try reflexivity.
+    cbn [map]. f_equal. unfold payload. rewrite Ox. reflexivity. }
+  destruct dx_fields as (_ & _ & _ & _ & F8). rewrite F8. unfold events_of, pre. rewrite flat_map_map', G.
+  unfold exported, evP. rewrite map_map. reflexivity.
+Qed.
+
+Lemma nodup_inc_all : NoDup (map fst inc_all).
+Proof.
+  unfold inc_all, the_cut. rewrite included_map.
+  apply (nodup_threads (fun t => firstn (count_while inP t) t)).
+  - intros tc x. apply firstn_subset'.
+  - intros tc. apply nodup_map_firstn.
+Qed.
+Lemma selc_ids {B} (sel : op aval -> option B) l :
+  map (fun w => fst (fst w)) (selc sel l) = map fst (filter (fun cl => match sel (snd cl) with Some _ => true | None => false end) l).
+Proof. unfold selc. induction l as [|cl l IH]; [reflexivity|]. cbn. destruct (sel (snd cl)); cbn; rewrite IH; reflexivity. Qed.
+
+Lemma ecs_in w : In w (ev_calls inc) <-> In (fst (fst w)) P /\ snd (fst w) = opa (fst (fst w)) /\ sel_ev (opa (fst (fst w))) = Some (snd w).
+Proof.
+  rewrite ev_calls_selc. destruct w as [[x o] pl]. rewrite selc_in, inc_in. cbn [fst snd]. split.
+  - intros [(H1 & -> & _) H2]. auto.
+  - intros (H1 & -> & H2). repeat split; auto. destruct (opa x); try discriminate. reflexivity.
+Qed.
+
+Lemma events_length : length (d_events dx) = length (ev_calls inc).
+Proof.
+  rewrite dx_events, map_length.
+  rewrite <- (map_length (fun w : rcall * (bytes * option Z * option (attrs aval)) => fst (fst w)) (ev_calls inc)).
+  assert (N2 : NoDup (map (fun w : rcall * (bytes * option Z * option (attrs aval)) => fst (fst w)) (ev_calls inc))).
+  { rewrite ev_calls_selc, selc_ids. apply nodup_map_filter. unfold inc. apply nodup_map_filter. exact nodup_inc_all. }
+  apply Nat.le_antisymm.
+  - apply NoDup_incl_length; [exact nodup_evP|]. intros x Hx. apply evP_in in Hx as [HxP [pl Hpl]].
+    apply in_map_iff. exists ((x, opa x), pl). split; [reflexivity|]. apply ecs_in. cbn. auto.
+  - apply NoDup_incl_length; [exact N2|]. intros x Hx. apply in_map_iff in Hx as (w & <- & Hw). apply ecs_in in Hw as (H1 & _ & H3).
+    apply evP_in. split; [exact H1|]. eexists; exact H3.
+Qed.
+
+Lemma events_names : nodup_names (map e_name (d_events dx)) = true.
+Proof.
+  rewrite dx_events, map_map.
+  assert (E : forall l, map (fun x => e_name (exported x)) l = flat_map (fun x => [fst (fst (payload x))]) l).
+  { induction l as [|x l IH]; [reflexivity|]. cbn [map flat_map app]. rewrite IH. reflexivity. }
+  rewrite E. apply nodup_names_flat; [exact nodup_evP|intros x; right; eexists; reflexivity|].
+  intros x y n Hx Hy [= Ex] [= Ey]. apply evP_in in Hx as [HxP [[[nx tx] ax] Sx]]. apply evP_in in Hy as [HyP [[[ny ty] ay] Sy]].
+  unfold payload in Ex, Ey. rewrite Sx in Ex. rewrite Sy in Ey. cbn in Ex, Ey. subst nx ny.
+  eapply (Hnames x y n); [apply valid_P; exact HxP|apply valid_P; exact HyP|exact (sel_ev_some _ _ _ _ Sx)|exact (sel_ev_some _ _ _ _ Sy)].
+Qed.
+
+Lemma event_call_own x : In x evP -> event_call (ev_calls inc) (exported x) = Some (x, opa x).
+Proof.
+  intros Hx. apply evP_in in Hx as [HxP [[[n ts] a] Sx]]. unfold event_call.
+  rewrite (find_unique (event_matches (exported x)) (ev_calls inc) ((x, opa x), (n, ts, a))); [reflexivity| | |].
+  - apply ecs_in. cbn. auto.
+  - unfold event_matches, exported, payload. rewrite Sx. cbn [snd map_ev event_of fst e_name e_ts e_attrs option_map].
+    rewrite bytes_eqb_refl. assert (T : tstamp_eqb (match ts with Some z => TExact z | None => TNow end) (ev_time ts) = true) by (destruct ts; cbn; [apply Z.eqb_refl|reflexivity]).
+    rewrite T. destruct a as [l|]; cbn [option_map ev_attrs]; [rewrite amap_ok_fold; reflexivity|].
+    pose proof (amap_ok_fold []) as K. cbn [map_attrs map] in K. rewrite K. reflexivity.
+  - intros [[y o] [[n' ts'] a']] Hb Hm. apply ecs_in in Hb as (HyP & Eo & Sy). cbn [fst snd] in *.
+    unfold event_matches, exported, payload in Hm. rewrite Sx in Hm. cbn [snd map_ev event_of fst e_name] in Hm.
+    apply andb_true_iff in Hm as [Hm _]. apply andb_true_iff in Hm as [Hm _]. apply bytes_eqb_eq in Hm. subst n'.
+    pose proof (sel_ev_some _ _ _ _ Sx) as Ox. pose proof (sel_ev_some _ _ _ _ Sy) as Oy.
+    assert (y = x) by (eapply (Hnames y x n); [apply valid_P; exact HyP|apply valid_P; exact HxP|exact Oy|exact Ox]). subst y.
+    rewrite Ox in Oy. injection Oy as <- <-. subst o. reflexivity.
+Qed.
+
+Lemma all_some_map_some {A} (l : list A) : all_some (map Some l) = Some l.
+Proof. induction l as [|a l IH]; [reflexivity|]. cbn. rewrite IH. reflexivity. Qed.
+
+Lemma order_ok_precedes (l : list cid) :
+  (forall l1 x l2, l = l1 ++ x :: l2 -> forall y, In y l2 -> precedes x y ids) ->
+  order_ok h (map (fun x => (x, opa x)) l) = true.
+Proof.
+  induction l as [|x l IH]; intros H; [reflexivity|]. cbn [map order_ok]. apply andb_true_iff. split.
+  - apply forallb_forall. intros c' Hc. apply in_map_iff in Hc as (y & <- & Hy). cbn [fst].
+    destruct (before h y x) eqn:Bf; [exfalso|reflexivity].
+    pose proof (H [] x l eq_refl y Hy) as Pxy. destruct (precedes_in _ _ _ Pxy) as [Hxi _].
+    exact (precedes_asym _ _ _ Hnd Pxy (Hord y x Hxi Bf)).
+  - apply IH. intros l1 z l2 E y Hy. apply (H (x :: l1) z l2); [rewrite E; reflexivity|exact Hy].
+Qed.
+
 Lemma events_ok_dx : events_ok h inc (d_events dx) = true.
 Proof.
-  destruct dx_fields as (_ & _ & _ & _ & F8).
-  assert (E1 : events_of pre = []).
-  { unfold events_of, pre. rewrite flat_map_map'. apply flat_map_nil. intros x Hx. specialize (Hnoev x Hx). unfold cop.
-    destruct (opa x); try reflexivity. contradiction. }
-  assert (E2 : ev_calls inc = []).
-  { unfold ev_calls. apply flat_map_nil. intros [x o] Hc. apply inc_in in Hc as (HxP & -> & _). specialize (Hnoev x HxP).
-    cbn [snd]. destruct (opa x); try reflexivity. contradiction. }
-  unfold events_ok. rewrite F8, E1, E2. reflexivity.
+  unfold events_ok. rewrite events_length, Nat.eqb_refl, events_names. cbn [andb].
+  rewrite dx_events, map_map.
+  rewrite (map_ext_in (fun x => event_call (ev_calls inc) (exported x)) (fun x => Some (x, opa x))) by (intros x Hx; apply event_call_own; exact Hx).
+  rewrite <- (map_map (fun x => (x, opa x)) Some), all_some_map_some.
+  apply order_ok_precedes. intros l1 x l2 E y Hy. unfold evP in E. apply filter_split in E as (p1 & p2 & EP & Hsub).
+  exists p1, (p2 ++ e :: R). split; [rewrite Hsplit, EP, <- app_assoc; reflexivity|apply in_or_app; left; apply Hsub; exact Hy].
 Qed.
 
 Lemma cut_ok_dx : cut_ok h s calls dx (e, te) the_cut = true.
@@ -536,15 +733,18 @@ Proof.
   change (@IsRec oval) with (map_op conv (@IsRec aval)). rewrite map_nth. reflexivity.
 Qed.
 
-(* EVERY ACCEPTED TRACE PASSES CLAUSE (c) of SpecRace - here for runs in which no thread adds events *)
-Theorem accepted_trace_passes_cut_partial (c : cfg aval) (s : start aval) (ths : list (list (op aval))) evs s' xe :
+Definition names_distinct (ths : list (list (op aval))) : Prop :=
+  forall x y n ts a ts' a', valid ths x -> valid ths y -> opa ths x = Event n ts a -> opa ths y = Event n ts' a' -> x = y.
+
+(* EVERY ACCEPTED TRACE PASSES CLAUSE (c) of SpecRace *)
+Theorem accepted_trace_passes_cut (c : cfg aval) (s : start aval) (ths : list (list (op aval))) evs s' xe :
   replay (conv_threads ths) (linit (map_cfg conv c) (map_start conv s)) (fun _ => O) evs 0 = inl s' ->
   complete_history ths (hist_of evs) ->
   valid ths xe -> is_end (opa ths xe) = true ->
-  (forall x, valid ths x -> match opa ths x with Event _ _ _ => False | _ => True end) ->
+  names_distinct ths ->
   race_cut_exists (hist_of evs) s (number_threads 0 ths) (export (map_cfg conv c) (map_start conv s) (l_lin s')) = true.
 Proof.
-  intros Hr [HB HR HS] Hxe Hee Hnoev.
+  intros Hr [HB HR HS] Hxe Hee Hnames.
   destruct (lock_order_is_linearization _ _ _ _ _ Hr) as (Hlin & Hnd & Hret & Hbeg & Hord).
   set (ids := ids_of (fun _ => O) evs) in *. set (h := hist_of evs) in *.
   assert (Hval : forall x, In x ids <-> valid ths x).
@@ -556,6 +756,5 @@ Proof.
   assert (Hl : l_lin s' = lin ths ids).
   { rewrite Hlin. unfold lin. apply map_ext. intros x. apply op_at_conv. }
   rewrite Hl.
-  apply (race_cut_exists_dx ths h ids Hnd Hval Hord HS P R e te Hsplit Eo HP c s).
-  intros x Hx. apply Hnoev. apply Hval. rewrite Hsplit. apply in_or_app; left; exact Hx.
+  exact (race_cut_exists_dx ths h ids Hnd Hval Hord HS P R e te Hsplit Eo HP c s Hnames).
 Qed.
